@@ -4,6 +4,7 @@ import (
 	"context"
 	"fmt"
 	"google.golang.org/protobuf/proto"
+	"math"
 
 	"google.golang.org/protobuf/types/known/fieldmaskpb"
 
@@ -47,6 +48,8 @@ func fanScenario(s *hx.Seq) {
 		"default": fanspeedpb.DefaultPresets,
 		"two":     {{Name: "lo", Percentage: 10}, {Name: "hi", Percentage: 90}},
 		"one":     {{Name: "only", Percentage: 50}},
+		// a fan without presets (percentage only): there is no row to select, and asking for one must not panic
+		"none": {},
 	}
 	ctx := context.Background()
 	for tn, table := range tables {
@@ -73,7 +76,7 @@ func fanScenario(s *hx.Seq) {
 			for _, i := range []int32{-3, -1, 0, 1, int32(len(table)) - 1, int32(len(table)), 99} {
 				mk(fmt.Sprintf("index=%d", i), &traits.FanSpeed{PresetIndex: i}, false, "preset_index")
 			}
-			for _, i := range []int32{-1, 1, 2} {
+			for _, i := range []int32{-1, 1, 2, math.MaxInt32, math.MinInt32} {
 				mk(fmt.Sprintf("index+=%d", i), &traits.FanSpeed{PresetIndex: i}, true, "preset_index")
 			}
 			for _, pc := range []float32{0, 10, 33, 50, 100} {
@@ -82,7 +85,9 @@ func fanScenario(s *hx.Seq) {
 			for _, pc := range []float32{-5, 5, 40} {
 				mk(fmt.Sprintf("percentage+=%v", pc), &traits.FanSpeed{Percentage: pc}, true, "percentage")
 			}
-			mk("preset+index", &traits.FanSpeed{Preset: table[0].Name, PresetIndex: int32(len(table)) - 1}, false, "preset", "preset_index")
+			if len(table) > 0 {
+				mk("preset+index", &traits.FanSpeed{Preset: table[0].Name, PresetIndex: int32(len(table)) - 1}, false, "preset", "preset_index")
+			}
 			mk("index+percentage", &traits.FanSpeed{PresetIndex: 0, Percentage: 33}, false, "preset_index", "percentage")
 		}
 		var an []string
@@ -96,10 +101,13 @@ func fanScenario(s *hx.Seq) {
 		seqs(len(reqs), depth, func(path []int) bool {
 			s.Eval(1)
 			s.Trans(len(path))
-			init := &traits.FanSpeed{Preset: table[0].Name, Percentage: table[0].Percentage}
+			init := &traits.FanSpeed{PresetIndex: -1, Percentage: 20}
+			if len(table) > 0 {
+				init = &traits.FanSpeed{Preset: table[0].Name, Percentage: table[0].Percentage}
+			}
 			m := fanspeedpb.NewModel(fanspeedpb.WithPresets(table...), fanspeedpb.WithInitialFanSpeed(init))
 			name := fmt.Sprintf("table=%s %s", tn, names(path, an))
-			if len(path) > 0 && path[0]%2 == 1 {
+			if len(path) > 0 && path[0]%2 == 1 && len(table) > 0 {
 				// configured with the preset table alone: the model has to start on a row of ITS table
 				m = fanspeedpb.NewModel(fanspeedpb.WithPresets(table...))
 				name += " (no initial fan speed given)"
@@ -156,6 +164,20 @@ func fanScenario(s *hx.Seq) {
 						s.Fail("fan-inconsistent "+name, fmt.Sprintf("after the update (from %v) the stored fan speed is %v: %s", before, cur, why), nil)
 					}
 					return true
+				}
+				// a relative step of the index lands on the row that many rows on, stopping at the ends of the table
+				// (however large the step: the sum of two int32 need not fit one)
+				if r.relative && len(r.mask) == 1 && r.mask[0] == "preset_index" && len(table) > 0 && step == len(path)-1 {
+					want := int64(before.PresetIndex) + int64(r.fs.PresetIndex)
+					if want < 0 {
+						want = 0
+					}
+					if want > int64(len(table)-1) {
+						want = int64(len(table) - 1)
+					}
+					if int64(cur.PresetIndex) != want {
+						s.Fail("fan-relative-index "+name, fmt.Sprintf("from row %d a relative step of %d rows ends on row %d, expected row %d of %d", before.PresetIndex, r.fs.PresetIndex, cur.PresetIndex, want, len(table)), nil)
+					}
 				}
 				// precedence preset > index > percentage, for absolute masked updates
 				if r.mask != nil && !r.relative && step == len(path)-1 {
